@@ -56,7 +56,11 @@ var cancels = []event{
 	{"cancel", "busy-calling-f@30", "for i := 0; ; i++ {\n\t_ = f(i)\n}", "func"},
 	{"cancel", "busy-calling-closure@30", "for {\n\t_ = cl()\n}", "closure"},
 	{"cancel", "blocked-recv@op", "ch := make(chan int)\n<-ch", ""},
-	{"cancel", "expired-context", "ch2 := make(chan int)\n<-ch2", ""},
+	// An already-expired context is deliberately not in the alphabet: EvalWithContext then races interp.stop() against
+	// the evaluation goroutine's run() (which re-synchronises the global frame's run id), two goroutines the harness does
+	// not schedule, and the outcome of later host-wrapper uses depends on who wins (DESIGN 8.7). The deterministic
+	// equivalent of the order "stop lands after run() started" is a cancel at the very first operation:
+	{"cancel", "blocked-recv@first-op", "ch2 := make(chan int)\n<-ch2", ""},
 }
 
 type history struct {
@@ -170,9 +174,9 @@ func runHistory(h history, skipCancels bool) (res result) {
 			rel := release
 			relMu.Unlock()
 			switch {
-			case e.Name == "expired-context":
-				cancelAt.Store(0)
-				cancel()
+			case strings.HasSuffix(e.Name, "@first-op"):
+				cancelAt.Store(1)
+				cancelFn.Store(cancel)
 			case strings.HasSuffix(e.Name, "@op"):
 				// the receive is the last operation of the snippet: count its operations with a dry compile is not possible,
 				// so cancel at the first operation that follows the channel creation (operation 3 of this two-statement snippet)
@@ -348,7 +352,7 @@ func main() {
 	r.Set("distinct_nontrivial", len(res.Sets["obs"]))
 	r.Set("max_history_length", maxLen)
 	r.Set("exhaustive", true)
-	r.Set("rule", "all histories define* ; (use | cancelled-eval)* with <= 3 definitions out of 8 kinds (function, method+var, closure in var, method value, pointer-receiver method, host wrappers of function / closure / method value), uses through Eval and from the host, 5 cancelled-evaluation kinds (busy loops cancelled at operation 30 by the step hook, blocked receive cancelled at the operation, already-expired context), total length <= the bound, containing a use after a cancelled evaluation; states = distinct reference observation vectors")
+	r.Set("rule", "all histories define* ; (use | cancelled-eval)* with <= 3 definitions out of 8 kinds (function, method+var, closure in var, method value, pointer-receiver method, host wrappers of function / closure / method value), uses through Eval and from the host, 5 cancelled-evaluation kinds (busy loops cancelled at operation 30 by the step hook, blocked receive cancelled at the receive and at the first operation), total length <= the bound, containing a use after a cancelled evaluation; states = distinct reference observation vectors")
 	r.Assumptions = []string{"oracle = the same history without the cancelled evaluations", "the cancelled evaluation's goroutine is allowed to finish before the next event (waits for the goroutine count to settle, not an oracle)"}
 	for _, i := range []int{0, len(hs) / 2, len(hs) - 1} {
 		r.Sample(hs[i].name())
